@@ -154,6 +154,7 @@ struct Global
   std::set<std::string> excluded;
   std::map<std::string, uint64_t> excluded_counts;
   std::map<std::string, TargetStats> per_target;
+  std::map<std::string, std::vector<std::string>> extra;  // key -> JSON fragments
   // current case, for the death callback
   const Target *cur_target = nullptr;
   const uint8_t *cur_data  = nullptr;
@@ -173,6 +174,12 @@ constexpr size_t kSamples      = 4;
 constexpr size_t kSampleMaxLen = 1500;
 
 }  // namespace
+
+std::string &failures_dir()
+{
+  static std::string *d = new std::string(".");
+  return *d;
+}
 
 void set_property(const std::string &id)
 {
@@ -215,6 +222,11 @@ bool excluded(const char *id)
 void count_excluded(const char *id)
 {
   G().excluded_counts[id]++;
+}
+
+void extra_add(const std::string &key, const std::string &json_fragment)
+{
+  G().extra[key].push_back(json_fragment);
 }
 
 void stats_set_paths(const std::string &stats_path, const std::string &crash_replay_path)
@@ -289,6 +301,16 @@ void stats_write()
   for (auto &kv : g.excluded_counts)
   {
     o << (first ? "" : ", ") << "\"" << json_escape(kv.first) << "\": " << kv.second;
+    first = false;
+  }
+  o << "},\n \"extra\": {";
+  first = true;
+  for (auto &kv : g.extra)
+  {
+    o << (first ? "" : ", ") << "\"" << json_escape(kv.first) << "\": [";
+    for (size_t i = 0; i < kv.second.size(); ++i)
+      o << (i ? ", " : "") << kv.second[i];
+    o << "]";
     first = false;
   }
   o << "},\n \"targets\": {";
@@ -446,6 +468,29 @@ static void on_signal(int sig)
   on_death();
   signal(sig, SIG_DFL);
   raise(sig);
+}
+
+void fatal_failure(const std::string &msg)
+{
+  Global &g = G();
+  g.dying   = true;
+  std::string path = g.crash_path;
+  if (g.cur_target && g.cur_data)
+  {
+    std::vector<uint8_t> b(g.cur_data, g.cur_data + g.cur_size);
+    std::string desc = g.cur_case ? g.cur_case->desc : std::string();
+    if (path.empty())
+      path = "fatal-replay.json";
+    write_replay_file(path, g.cur_target->name, b, msg, desc, "fatal");
+    printf("VH-REPLAY target=%s result=FAIL\nVH-FAIL target=%s replay=%s\nVH-MSG %s\nVH-CASE %s\n",
+           g.cur_target->name.c_str(), g.cur_target->name.c_str(), path.c_str(), msg.c_str(),
+           desc.substr(0, 4000).c_str());
+    fflush(stdout);
+    g.per_target[g.cur_target->name].evaluations++;
+    g.per_target[g.cur_target->name].failures++;
+  }
+  stats_write();
+  _exit(1);
 }
 
 void install_death_hooks()
